@@ -11,7 +11,7 @@ use lrtable::{Action, StIdx};
 use rayon::prelude::*;
 use serde_json::json;
 use std::collections::{BTreeMap, BTreeSet};
-use vcore::gram::{Assoc, RefGrammar, Sym, family_expr, family_ternary};
+use vcore::gram::{Assoc, RefGrammar, Sym, family_expr, family_ternary, family_wide};
 use vcore::real::{BuildErr, Built, build};
 use vcore::refs::{Analysis, Lr1, LrAct, analyse};
 use vcore::report::Ctx;
@@ -597,6 +597,12 @@ pub fn run(ctx: Ctx, mode: Mode) -> i32 {
             st
         })
         .reduce(Stats::default, |a, b| a.merge(b));
+    // F-wide: the same skeletons (with their precedence declarations) moved to token indices
+    // 62-120 and rule indices up to 65, as they are (no further precedence variants)
+    let wide = family_wide();
+    let stats = stats.merge(wide.par_iter().map(|g| check_spec(&ctx, mode, g)).reduce(Stats::default, |a, b| a.merge(b)));
+    let mut sizes = sizes;
+    sizes.push(("F-wide (tokens from index 62-120, rules from index 1-65)".to_string(), wide.len()));
     let _ = (PIdx(0u32), SIdx(0u32));
     // vacuity guard: every resolution kind must have been exercised
     for k in [
